@@ -35,6 +35,9 @@ class VHD(AlignedStream):
         super().__init__(self.disk.size)
 
     def _read(self, offset: int, length: int) -> bytes:
+        # The aligned stream may request more than what's left of the disk, so clamp to the disk size
+        length = min(length, self.size - offset)
+
         sector = offset // SECTOR_SIZE
         count = (length + SECTOR_SIZE - 1) // SECTOR_SIZE
 
